@@ -269,6 +269,11 @@ def mutate(
     else:
         # No exception was caught, so write the output file(s)
 
+        # Serialize & encode before opening any file for writing: if either
+        # fails, nothing has been truncated yet
+        output_data = str(simfile)
+        output_data.encode(encoding)
+
         # Write backup file if requested
         if backup_filename:
             with filesystem.open(
@@ -280,4 +285,4 @@ def mutate(
         with filesystem.open(
             output_filename or input_filename, "w", encoding=encoding, **kwargs
         ) as writer:
-            simfile.serialize(cast(TextIO, writer))
+            writer.write(output_data)
